@@ -8,4 +8,9 @@ PN_Sub6 == SUBSET (0..5)
 PN_Few  == {{}, {1}, {0, 2}, {3}}
 NoDev == {}
 NoAttrs == {}
+AllOwnSets == SUBSET Attrs
+\* all four attributes on larger graphs: a node carries none, one, or all of them
+FewOwnSets == {{}} \cup {{a} : a \in Attrs} \cup {Attrs}
+\* ... or: none, the two boxes-and-resources kinds, the two others, all four
+PairOwnSets == {{}, {"Resources", "MediaBox"}, {"CropBox", "Rotate"}, Attrs}
 =============================================================================
